@@ -69,6 +69,8 @@ add("C20", "mb2-check", "exhaustive 2^32 enumeration (thorough) / stratified sam
     "All conversion, naming and equality laws for every 32-bit value, ELF type classification through the public iterator for all 2^32 raw values, all 256 framebuffer type bytes, both magics.",
     "the exhaustive sweep runs in the release build; the dev build runs the stratified sample", "DESIGN.md §4 C20")
 
-for i in ["C08"]:
-    if i not in CHECKS:
-        NOT_APPLICABLE[i] = PENDING
+add("C08", "mb2-check+transcript", "differential testing of four separately compiled configurations over generated inputs",
+    "Generated well-formed and malformed boot informations and headers are sent to four transcript servers built from the same driver source as {dev, release} x {default features, no default features}; the address-free transcripts of load/walk/decode must be byte-identical.",
+    "four configurations on one 64-bit host and toolchain; Debug renderings and derived sums are outside 'decoding stored data' and not compared", "DESIGN.md §4 C08")
+ENGINES.append({"name": "transcript", "path": "transcript", "serves_properties": ["C08"],
+     "kind_free_text": "stand-alone transcript server built in four configurations; serves each request in a forked child on guarded memory"})
